@@ -18,6 +18,7 @@ import (
 // C17 — concurrent use is free of data races and deadlocks.
 
 type c17World struct {
+	fresh   int
 	w       *world.World
 	a, b    *world.Peer
 	srv     api.FeatureLocalInterface
@@ -39,8 +40,22 @@ func (c *c17World) firstPending() *api.Message {
 	return c.pending[0]
 }
 
+// c17Fresh numbers the executions of a worker process: discovery messages announce, next to the usual features,
+// one feature of a vendor-specific type that this process has not seen before, so that anything the stack
+// remembers per feature-type name (process-wide) is written, not only read, in every execution.
+var c17Fresh int
+
+//go:norace
+func c17NextFresh() int { c17Fresh++; return c17Fresh }
+
+func withVendorFeature(es world.EntSpec, tag string, n int) world.EntSpec {
+	es.Feats = append(append([]world.FeatSpec{}, es.Feats...), world.FeatSpec{Num: 9, Type: model.FeatureTypeType(fmt.Sprintf("Vendor%s%d", tag, n)), Role: model.RoleTypeClient, Desc: "vendor specific"})
+	return es
+}
+
 func newC17World() *c17World {
 	c := &c17World{w: stdWorld(false, "A", "B")}
+	c.fresh = c17NextFresh()
 	c.a, c.b = c.w.Peers["A"], c.w.Peers["B"]
 	c.srv = c.w.L.FeatureByAddress(srvAddr("L1lc", true))
 	c.cli = c.w.L.FeatureByAddress(world.FAddr(world.LocalAddr, []uint{1}, lLCClient))
@@ -99,7 +114,7 @@ func c17Ops() []c17Op {
 		{"A:discovery-notify", func(c *c17World) {
 			st := model.NetworkManagementStateChangeTypeAdded
 			cmd := model.CmdType{Function: util.Ptr(model.FunctionTypeNodeManagementDetailedDiscoveryData), Filter: []model.FilterType{*model.NewFilterTypePartial()},
-				NodeManagementDetailedDiscoveryData: c.a.DiscoveryData([]world.EntSpec{clientEntity([]uint{1, 1})}, false, &st)}
+				NodeManagementDetailedDiscoveryData: c.a.DiscoveryData([]world.EntSpec{withVendorFeature(clientEntity([]uint{1, 1}), "A", c.fresh)}, false, &st)}
 			c.a.Deliver(c.a.Datagram(c.a.NM(), world.LocalNM(), model.CmdClassifierTypeNotify, false, nil, cmd))
 		}},
 		{"A:entity-removed", func(c *c17World) {
@@ -214,7 +229,7 @@ func c17Ops() []c17Op {
 			c.a.Deliver(c.a.Datagram(c.a.NM(), world.LocalNM(), model.CmdClassifierTypeRead, false, nil, model.CmdType{NodeManagementDestinationListData: &model.NodeManagementDestinationListDataType{}}))
 		}},
 		{"B:full-discovery-notify", func(c *c17World) {
-			cmd := model.CmdType{NodeManagementDetailedDiscoveryData: c.b.DiscoveryData([]world.EntSpec{clientEntity([]uint{1}), clientEntity([]uint{3})}, true, nil)}
+			cmd := model.CmdType{NodeManagementDetailedDiscoveryData: c.b.DiscoveryData([]world.EntSpec{clientEntity([]uint{1}), withVendorFeature(clientEntity([]uint{3}), "B", c.fresh)}, true, nil)}
 			c.b.Deliver(c.b.Datagram(c.b.NM(), world.LocalNM(), model.CmdClassifierTypeNotify, false, nil, cmd))
 		}},
 		{"local:RemoveRemoteDeviceConnection(B)", func(c *c17World) { c.w.L.RemoveRemoteDeviceConnection("B") }},
